@@ -124,7 +124,7 @@ def lock (L : Lens U RwLockState) (write : Bool) : Prog U LockRes := do
 
 /-- `RwLock::try_lock(typ)`; `fixedF3` selects the repaired behaviour (give the permit back when the
 caller already holds the read lock) -/
-def tryLock (L : Lens U RwLockState) (write : Bool) (fixedF3 : Bool := false) : Prog U LockRes := do
+def tryLock (L : Lens U RwLockState) (write : Bool) (fixedF3 : Bool := true) : Prog U LockRes := do
   let me ← K.me
   let r ← Sem.tryAcquire (semL L) (permits write)
   match r with
